@@ -814,22 +814,39 @@ Definition comments_callback (ip : bool) (g : gtree) : res gtree :=
         match r with
         | TDict c items =>
             let setk := match c with DCI _ | DDef _ => ci_set | DPlain => od_set end in
-            let cm0 := match (match c with DPlain => assoc s_comments items | _ => ci_get s_comments items end) with
-                       | Some (TVal (VDict _ x)) => x
-                       | _ => []
-                       end in
-            let cm1 := if has_comments m then od_set s_type (get_comments m) cm0 else cm0 in
-            do cm2 <- match assoc s_type items with
-                      | Some (TVal (VStr ty)) =>
-                          if str_eqb ty s_metadata then
-                            match cs with
-                            | GNode _ mdkids _ :: _ => add_metadata_comments items cm1 mdkids
-                            | _ => vfail
-                            end
-                          else Ok cm1
-                      | _ => vfail
-                      end;
-            Ok (GVal (TDict c (setk s_comments (TVal (VDict DPlain cm2)) items)))
+            let existing := match c with DPlain => assoc s_comments items | _ => ci_get s_comments items end in
+            match existing with
+            | Some (TVal (VDict _ _)) | None =>
+                let cm0 := match existing with Some (TVal (VDict _ x)) => x | _ => [] end in
+                let cm1 := if has_comments m then od_set s_type (get_comments m) cm0 else cm0 in
+                do cm2 <- match assoc s_type items with
+                          | Some (TVal (VStr ty)) =>
+                              if str_eqb ty s_metadata then
+                                match cs with
+                                | GNode _ mdkids _ :: _ => add_metadata_comments items cm1 mdkids
+                                | _ => vfail
+                                end
+                              else Ok cm1
+                          | _ => vfail
+                          end;
+                Ok (GVal (TDict c (setk s_comments (TVal (VDict DPlain cm2)) items)))
+            | Some _ =>
+                (* a key-value entry spelled __comments__ (a string): "__comments__" in d, so no
+                   dict is created; every d["__comments__"][k] = ... then raises TypeError *)
+                if has_comments m then vfail
+                else
+                  match assoc s_type items with
+                  | Some (TVal (VStr ty)) =>
+                      if str_eqb ty s_metadata then
+                        match cs with
+                        | GNode _ (_ :: _ :: _ :: _) _ :: _ => vfail      (* at least one pair: the loop assigns *)
+                        | GNode _ _ _ :: _ => Ok (GVal r)
+                        | _ => vfail
+                        end
+                      else Ok (GVal r)
+                  | _ => vfail
+                  end
+            end
         | _ => vfail
         end
       else Ok g
